@@ -94,6 +94,7 @@ type G struct {
 	ch        any   // waiter channel
 	why       string
 	xconn     int64 // connection being transferred while paused at xfer.send
+	lastFake  int64 // fake connection most recently constructed on this goroutine
 }
 
 type fakeConn struct {
@@ -122,6 +123,8 @@ type Run struct {
 	bgs     map[int64]*G
 
 	inbox map[int64]int64 // waiter key -> connection id sitting in its channel
+	chans map[int64]any   // every waiter channel ever seen, by key (stays after the waiter left)
+	poolID map[int64]int64 // pool connection id -> fake connection id (creation order, 1-based)
 
 	expectBg bool // the source releases a connection in the background when its creator gives up
 
@@ -195,7 +198,7 @@ func (c *fakeConn) Ready() <-chan struct{}         { return c.ready }
 
 func NewRun(max int64, ncallers int, expectBg bool) *Run {
 	installHook()
-	r := &Run{max: max, byGoid: map[int64]*G{}, bgs: map[int64]*G{}, inbox: map[int64]int64{}, kinds: map[string]int{}, leaked: map[int64]bool{},
+	r := &Run{max: max, byGoid: map[int64]*G{}, bgs: map[int64]*G{}, inbox: map[int64]int64{}, chans: map[int64]any{}, poolID: map[int64]int64{}, kinds: map[string]int{}, leaked: map[int64]bool{},
 		expectBg: expectBg}
 	ctx, cancel := context.WithCancel(context.Background())
 	r.dcCancel = cancel
@@ -262,6 +265,9 @@ func (r *Run) newConn() pool.Conn {
 	defer r.mu.Unlock()
 	c := &fakeConn{r: r, id: int64(len(r.conns) + 1), ready: make(chan struct{})}
 	r.conns = append(r.conns, c)
+	if g := r.byGoid[goid()]; g != nil {
+		g.lastFake = c.id
+	}
 	if !r.aborted {
 		r.running++ // the Run goroutine that createConnection is about to start
 	}
@@ -336,6 +342,7 @@ func (r *Run) hook(point string, args []any) {
 	g := r.byGoid[id]
 	if g == nil && point == "bg.wait" {
 		cid, _, _ := pool.VerifC27Conn(args[0])
+		cid = r.fakeOf(cid)
 		g = &G{kind: gBg, idx: int(cid), wake: make(chan string, 1), state: stRunning}
 		r.byGoid[id] = g
 		r.gs = append(r.gs, g)
@@ -351,16 +358,25 @@ func (r *Run) hook(point string, args []any) {
 		r.mu.Unlock()
 		r.finish(g)
 		return
-	case "acq.check", "acq.create":
-		if cid, _, ok := pool.VerifC27Conn(args[0]); ok {
-			g.conn = cid
-			if int(cid) <= len(r.conns) {
-				r.conns[cid-1].pc = args[0]
+	case "acq.create":
+		// the pool numbers connections when the slot is reserved, the harness (like the model) when the
+		// connection is created: learn the correspondence here
+		if pid, _, ok := pool.VerifC27Conn(args[0]); ok && g.lastFake > 0 {
+			r.poolID[pid] = g.lastFake
+			g.conn = g.lastFake
+			r.conns[g.lastFake-1].pc = args[0]
+		}
+	case "acq.check":
+		if pid, _, ok := pool.VerifC27Conn(args[0]); ok {
+			g.conn = r.fakeOf(pid)
+			if g.conn > 0 && int(g.conn) <= len(r.conns) {
+				r.conns[g.conn-1].pc = args[0]
 			}
 		}
-	case "acq.wait":
+	case "acq.wait", "acq.registered":
 		g.key, _ = pool.VerifC27Key(args[0])
 		g.ch = args[1]
+		r.chans[g.key] = g.ch
 	case "acq.giveup":
 		g.key, _ = pool.VerifC27Key(args[0])
 		g.why, _ = args[1].(string)
@@ -369,6 +385,14 @@ func (r *Run) hook(point string, args []any) {
 	}
 	r.mu.Unlock()
 	r.yield(g, point, args)
+}
+
+// fakeOf translates a pool connection id (locked: r.mu held by the caller or quiescent).
+func (r *Run) fakeOf(pid int64) int64 {
+	if f, ok := r.poolID[pid]; ok {
+		return f
+	}
+	return pid
 }
 
 // waitQuiet blocks until no managed goroutine is running.
@@ -457,16 +481,19 @@ func (r *Run) observeC(check bool) obs {
 	var o obs
 	sn := pool.VerifC27Snapshot(r.dc)
 	o.total = sn.Total
-	o.free = sn.Free
+	for _, pid := range sn.Free {
+		o.free = append(o.free, r.fakeOf(pid))
+	}
 	o.reqs = append([]int64(nil), sn.Reqs...)
 	sort.Slice(o.reqs, func(i, j int) bool { return o.reqs[i] < o.reqs[j] })
-	for _, g := range r.callers {
-		if check && g.state == stYield && (g.point == "acq.wait" || g.point == "acq.giveup") && g.ch != nil {
-			n := pool.VerifC27ChanLen(g.ch)
-			_, have := r.inbox[g.key]
-			if (n == 1) != have {
-				r.fail("harness-inbox-bookkeeping", fmt.Sprintf("waiter key %d: channel length %d but bookkeeping says %v", g.key-1, n, have))
-			}
+	for k, ch := range r.chans {
+		n := pool.VerifC27ChanLen(ch)
+		_, have := r.inbox[k]
+		if n == 0 && have {
+			delete(r.inbox, k) // received (or polled) by somebody
+		}
+		if check && n == 1 && !have {
+			r.fail("harness-inbox-bookkeeping", fmt.Sprintf("waiter key %d: a connection is in its channel but no transfer to it was observed", k-1))
 		}
 	}
 	for k, c := range r.inbox {
@@ -527,7 +554,9 @@ func (r *Run) pcOf(g *G) string {
 		return fmt.Sprintf("C%d", g.conn-1)
 	case "acq.create":
 		return fmt.Sprintf("N%d", g.conn-1)
-	case "acq.wait":
+	case "acq.reserved":
+		return "R"
+	case "acq.wait", "acq.registered":
 		return fmt.Sprintf("W%d", g.key-1)
 	case "acq.giveup":
 		return fmt.Sprintf("G%d%s", g.key-1, g.why[:1])
@@ -600,6 +629,10 @@ func (r *Run) enabled(w Weights, b *Budget) []choice {
 			if !muHeld {
 				out = append(out, choice{g, "go", "en", i, w.Step})
 			}
+		case "acq.reserved":
+			out = append(out, choice{g, "go", "mk", i, w.Step})
+		case "acq.registered":
+			out = append(out, choice{g, "go", "pk", i, w.Step})
 		case "acq.check":
 			out = append(out, choice{g, "go", "ck", i, w.Step})
 		case "acq.create":
@@ -677,7 +710,7 @@ func (r *Run) holders(o obs) map[int64][]string {
 	for _, kc := range o.inbox {
 		reader := false
 		for _, g := range r.callers {
-			if g.state == stYield && (g.point == "acq.wait" || g.point == "acq.giveup") && g.key == kc[0] {
+			if g.state == stYield && (g.point == "acq.wait" || g.point == "acq.registered" || g.point == "acq.giveup") && g.key == kc[0] {
 				reader = true
 			}
 		}
@@ -701,11 +734,20 @@ func (r *Run) monitor(o obs, last string) {
 			live++
 		}
 	}
-	if int64(live) != o.total {
-		r.fail("total-mismatch", fmt.Sprintf("after %s: total=%d but %d connections are not dead | %s", last, o.total, live, o.summary))
+	reserved := 0
+	for _, g := range r.callers {
+		if g.state == stYield && g.point == "acq.reserved" {
+			reserved++
+		}
+	}
+	if int64(live+reserved) != o.total {
+		r.fail("total-mismatch", fmt.Sprintf("after %s: total=%d but %d connections are not dead and %d callers hold a reserved slot | %s", last, o.total, live, reserved, o.summary))
 	}
 	if r.max >= 1 && int64(live) > r.max {
 		r.fail("over-limit", fmt.Sprintf("after %s: %d live connections, max %d | %s", last, live, r.max, o.summary))
+	}
+	if r.max >= 1 && o.total > r.max {
+		r.fail("over-limit", fmt.Sprintf("after %s: total=%d exceeds max %d | %s", last, o.total, r.max, o.summary))
 	}
 	h := r.holders(o)
 	kind := last
